@@ -984,6 +984,8 @@ func areaMetrics(c *Ctx) {
 			c.Stat("time", "other")
 		}
 	}
+	// zero versus absent: the all-zero head info (both times unset)
+	c.Case(Direct, "metrics.headrt", "rev=0 y0=0 x0=0 nl=0 upm=0 created=-62135596800:0 modified=-62135596800:0 bbox=0:0:0:0 bold=0 italic=0 shadow=0 cond=0 extd=0 ppem=0 loca=0", true)
 	for i := 0; i < n/5; i++ {
 		rev := int(r.U64() & 0xFFFFFFFF)
 		if r.Chance(1, 4) {
